@@ -253,7 +253,12 @@ func report(a RunArgs, eng Engine, engName string, info Info, results []*Result,
 			sort.Strings(hitl)
 			fc := map[string]any{"hit": len(cells), "never_hit": never}
 			if len(info.AllCells) > 0 {
+				// "total" counts the cells of the systematic table; cells that only random compositions produce
+				// (features combined in one bundle) come on top of it
 				fc["total"] = len(info.AllCells)
+				fc["hit_of_total"] = len(info.AllCells) - len(never)
+				fc["hit_outside_the_systematic_table"] = len(cells) - (len(info.AllCells) - len(never))
+				delete(fc, "hit")
 			}
 			if len(hitl) <= 400 {
 				fc["hit_list"] = hitl
